@@ -25,7 +25,7 @@ Two models, tied to the code by harness/props/c06.py:
   `VectorVortexCoronagraph.backward` is rejected and provably leaves `wavelength = 1`
   (`vvcBwdScalarOld_clobbers_wavelength`).
 
-Not modelled: element-internal state (instance caches, cached mirror surfaces — C05), the Python
+Not modelled: eviction from the instance cache and hash collisions (C05), the Python
 object model beyond the instruction set of `Effects.Instr`, rounding.
 -/
 set_option linter.unusedSimpArgs false
@@ -215,16 +215,6 @@ theorem repeatable (sem : Nat → List Int → Int) (p : Prog) (hs : safe p = tr
     simp [inputAfter, h1, h2, InVal.obj]
   rw [this]
 
-/-- History independence, as far as this model can state it: a call in between with any other
-wavefront `w` (outcome discarded) does not change what the call on `v` returns.  `_partial`: the
-statement is immediate here because the only state an `Effects.Prog` can reach is its argument;
-state kept *inside the element* between calls (instance caches, cached mirror surface, tip-tilt
-actuators of the modulated pyramid) is outside the instruction set. That part of the clause is
-covered behaviourally only (harness clauses `history`, `fresh-element`) and by C05's cache model. -/
-theorem history_independent_partial (sem : Nat → List Int → Int) (p : Prog) (hs : safe p = true) (v w : InVal) :
-    (let _ := call sem p w; call sem p (inputAfter (call sem p v))) = call sem p v :=
-  repeatable sem p hs v
-
 /-- Every effect program shipped in `Model/Elements.lean` is accepted by the checker. -/
 theorem shipped_programs_safe : ∀ np ∈ programs, safe np.2 = true := by decide
 
@@ -260,5 +250,91 @@ theorem vvcBwdScalarOld_clobbers_wavelength (sem : Nat → List Int → Int) (v 
 theorem vvcBwdScalar_restores (sem : Nat → List Int → Int) (v : InVal) :
     (call sem vvcBwdScalar v).inputObj = v.obj :=
   (safe_sound sem vvcBwdScalar (by decide) v).2
+
+/-! ## Element-internal state: history independence
+
+`Effects.IProg` adds what a call may keep inside the element: memo cells (value + the key it was
+computed for) and scratch buffers.  `safeInternal` accepts a program iff every fill and every
+fallback of a cell is literally the cell's specification, the specification mentions only the key
+atoms of the cell (element parameters, the input's grid, the input's wavelength — never field
+values or locals), nothing is updated in place or read without comparing keys, and scratch is
+written before it is read.  This replaces the former `history_independent_partial`. -/
+
+/-- **History independence.**  For an accepted program, whatever happened to the element before —
+any sequence of calls with any wavefronts and of parameter changes — the next call returns what a
+freshly constructed element with the same parameters returns. -/
+theorem history_independent (S : ISem) (p : IProg) (hs : safeInternal p = true) (params : Nat → Int)
+    (h : List Event) (v : InVal) :
+    (callI S p (runHistory S p (EState.fresh params) h) v).1
+      = (callI S p (EState.fresh (runHistory S p (EState.fresh params) h).params) v).1 := by
+  exact callI_result_eq S p hs (runHistory S p (EState.fresh params) h)
+    (EState.fresh (runHistory S p (EState.fresh params) h).params) v rfl
+    (runHistory_inv S p hs h _ (memoInv_fresh S p)) (memoInv_fresh S p)
+
+/-- Calls do not change the parameters, so with calls only the comparison is with a fresh element
+built from the original parameters. -/
+theorem history_independent_calls (S : ISem) (p : IProg) (hs : safeInternal p = true) (params : Nat → Int)
+    (vs : List InVal) (v : InVal) :
+    (callI S p (runHistory S p (EState.fresh params) (vs.map Event.call)) v).1
+      = (callI S p (EState.fresh params) v).1 := by
+  have hp : ∀ (E : EState), (runHistory S p E (vs.map Event.call)).params = E.params := by
+    induction vs with
+    | nil => intro E; rfl
+    | cons w rest ih => intro E; simp only [List.map_cons, runHistory, List.foldl_cons]; exact (ih _).trans rfl
+  have := history_independent S p hs params (vs.map Event.call) v
+  rw [hp] at this
+  exact this
+
+/-- The invariant behind it: after any history every filled memo cell holds its specification
+evaluated at an environment whose key atoms have the stored tag — "every filled cell holds
+f(params, key)". -/
+theorem memo_cells_hold_spec (S : ISem) (p : IProg) (hs : safeInternal p = true) (params : Nat → Int)
+    (h : List Event) (c : Nat) (tag : List Int) (val : Int)
+    (hc : (runHistory S p (EState.fresh params) h).cells c = some (tag, val)) :
+    ∃ ρ' : Atom → Int, (p.keyAtoms c).map ρ' = tag ∧ val = evalI S ρ' 0 (fun _ => 0) (p.spec c) :=
+  runHistory_inv S p hs h _ (memoInv_fresh S p) c tag val hc
+
+/-- The internal programs of the stateful families are accepted. -/
+theorem shipped_internal_programs_safe : ∀ np ∈ internalPrograms, safeInternal np.2.1 = true := by decide
+
+example : safeInternal iMirror = true := by decide
+
+/-- An interpretation under which the counterexamples below are computed: operation `opSub` is
+subtraction, `opMul` multiplication, every other binary operation addition, unary ones identity. -/
+def demoISem : ISem :=
+  { s1 := fun _ a => a, s2 := fun f a b => if f = opSub then a - b else if f = opMul then a * b else a + b }
+
+/-- **Classic failure 1: a cell filled with a value that depends on the calls made** (stored screen
+corrected in place per call — the `ModalAdaptiveOpticsLayer` at λ = 1 seeded defect): rejected … -/
+theorem modalAOOld_unsafe : safeInternal iModalAOOld = false := by decide
+
+/-- … and the second identical call indeed returns something else than a fresh element does. -/
+theorem modalAOOld_history_dependent :
+    let v : InVal := ⟨1, 1, 0, 0⟩
+    let params : Nat → Int := fun i => if i = 0 then 10 else 3
+    (callI demoISem iModalAOOld (runHistory demoISem iModalAOOld (EState.fresh params) [.call v]) v).1
+      ≠ (callI demoISem iModalAOOld (EState.fresh params) v).1 := by decide
+
+/-- **Classic failure 2: a cell not keyed by what its contents depend on** (wavelength-dependent
+instance data stored under the grid alone): rejected … -/
+theorem unkeyed_unsafe : safeInternal iUnkeyed = false := by decide
+
+/-- … and after a call at wavelength 1 a call at wavelength 2 on the same grid gets the data of
+wavelength 1. -/
+theorem unkeyed_history_dependent :
+    let v1 : InVal := ⟨1, 1, 0, 0⟩
+    let v2 : InVal := ⟨1, 2, 0, 0⟩
+    let params : Nat → Int := fun _ => 0
+    (callI demoISem iUnkeyed (runHistory demoISem iUnkeyed (EState.fresh params) [.call v1]) v2).1
+      ≠ (callI demoISem iUnkeyed (EState.fresh params) v2).1 := by decide
+
+/-- A work buffer read before it is written: rejected, and the result depends on the previous call. -/
+theorem staleScratch_unsafe : safeInternal iStaleScratch = false := by decide
+
+theorem staleScratch_history_dependent :
+    let v : InVal := ⟨5, 1, 0, 0⟩
+    let params : Nat → Int := fun _ => 0
+    (callI demoISem iStaleScratch (runHistory demoISem iStaleScratch (EState.fresh params) [.call v]) v).1
+      ≠ (callI demoISem iStaleScratch (EState.fresh params) v).1 := by decide
 
 end HcipyVerif.C06
